@@ -2,6 +2,7 @@
 import common
 import conc
 import driver
+import replay as rsearch
 
 PROPERTIES_FILE = "Properties/Properties_C09.v"
 COQ_DEPS = ["Proofs/Once_proofs.vo", "Proofs/OnceR_proofs.vo"]
@@ -99,6 +100,48 @@ REPLAY_OUT = ["done", "left", "events_not_abstracted", "stuck_self", "stuck_even
               "word_low32", "starts", "finished", "early_ret", "inv_b", "all_idle", "nobody_asleep"]
 
 
+DONE = 0xFFFFFFFFFFFFFFFF
+
+
+def preferred_order(grp):
+    """untrusted: a global order of the round's recorded events in which every value the library observed in the gate word is
+    the current one (lib/replay.py, with the hidden plain read of the inline wrapper); returns {id(event): key} (keys = 4 * rank)
+    or None when the search gives up (the recorder's stamps are then used as they are).  Only a preference: OnceR.replay decides"""
+    threads = []
+    for (sv, tr, thr) in grp:
+        acts, fast = [], False
+        for j, e in enumerate(tr):
+            if fast:
+                acts.append(rsearch.Act(thr, j, None, ("load", e), indep=True, hidden=True))
+                fast = False
+            indep = e.kind in (100, 101, 102, 103, 1) or (e.kind in (4, 5) and not (e.ok & 1))
+            acts.append(rsearch.Act(thr, j, 2 * e.seq, ("ev", e), indep=indep))
+            if e.kind == 100 and e.a == 1:
+                fast = True
+        threads.append(acts)
+
+    def enabled(word, a):
+        what, e = a.data
+        if what == "load":
+            return (word == DONE) == (e.kind == 101)
+        if e.kind == 4:
+            return e.a == word and bool(e.ok & 1) == (word == 0)
+        if e.kind in (1, 3, 5):
+            return e.a == word
+        return True
+
+    def apply(word, a):
+        what, e = a.data
+        if what == "ev" and (e.kind == 3 or (e.kind in (4, 5) and e.ok & 1)):
+            return e.b
+        return word
+
+    order, complete = rsearch.linearize(threads, 0, enabled, apply)
+    if not complete:
+        return None
+    return {id(a.data[1]): 4 * (r + 1) for r, a in enumerate(order) if a.data[0] == "ev"}
+
+
 def global_replay(name, groups, chunk=40):
     """groups: list of (label, [(self, [Ev], thread#)]): every round is replayed, all its threads together, on the global model
     Once.gstep by OnceR.replay inside Coq; returns one dict (REPLAY_OUT) per round"""
@@ -106,8 +149,12 @@ def global_replay(name, groups, chunk=40):
     for c0 in range(0, len(groups), chunk):
         part = groups[c0:c0 + chunk]
         body = ["Definition rounds : list (list (Z * list (Z * event))) := ["]
-        body.append(";\n".join("[%s]" % "; ".join("(%d, [%s])" % (sv, "; ".join("(%d, %s)" % (2 * e.seq, e.coq()) for e in tr))
-                                                   for (sv, tr, _) in grp) for (_, grp) in part))
+        rows = []
+        for (_, grp) in part:
+            keys = preferred_order(grp)
+            kf = (lambda e, keys=keys: keys[id(e)]) if keys is not None else (lambda e: 2 * e.seq)
+            rows.append("[%s]" % "; ".join("(%d, [%s])" % (sv, "; ".join("(%d, %s)" % (kf(e), e.coq()) for e in tr)) for (sv, tr, _) in grp))
+        body.append(";\n".join(rows))
         body.append("].")
         body.append("Eval vm_compute in map OnceR.replay rounds.")
         ok, vals, raw = driver.coq_eval("%s_%d" % (name, c0), ["Word", "Conc", "Replay", "Gen_once", "Once", "OnceR"], "\n".join(body) + "\n",
@@ -188,7 +235,8 @@ def correspond(ctx):
                     "the wrapper per predicate), schedule perturbation inside the library's atomic operations (0/15/40 percent of "
                     "events) and SIGUSR1 storms without SA_RESTART; every per-thread event trace recorded by the DISPATCH_VERIF hook "
                     "(fast-path calls included: call mark, return mark) is replayed through Once.tstep_vis inside Coq; WHOLE-ROUND "
-                    "REPLAY: all threads of a round, merged by the recorder's stamps, are replayed on the global model Once.gstep "
+                    "REPLAY: all threads of a round, merged in an order found by an untrusted search that starts from the recorder's stamps "
+                    "(lib/replay.py), are replayed on the global model Once.gstep "
                     "(OnceR.replay inside Coq: an action is taken only when the model accepts it with the values the library "
                     "observed; every action must be consumed), the end state must be the completed gate (word ~0l, one start, "
                     "finished, no early return, everybody outside and awake) and satisfy the boolean invariant OnceR.inv_b; API-level "
